@@ -39,7 +39,13 @@ def _query(entry, data, X, y, extra):
     Q = np.vstack(rows + new + far)
     if extra.get("extreme"):
         # one row of a wildly different magnitude sits in the batch (a sentinel, a unit mix-up): the OTHER rows are answered as without it
-        Q = np.vstack([Q, np.full((1, d), float(extra["extreme"]))])
+        ex = extra["extreme"]
+        if isinstance(ex, str):
+            # ... or a row far away in a drawn direction (a few hundred to tens of thousands of units): far enough for one local
+            # model's exponentials to underflow, not necessarily for another's
+            Q = np.vstack([Q, (new[0] if np.any(new[0]) else np.ones(d)) * float(ex[1:])])
+        else:
+            Q = np.vstack([Q, np.full((1, d), float(ex))])
     if kind == "nmf":
         Q = np.abs(Q)
     return np.ascontiguousarray(Q)
@@ -105,13 +111,28 @@ def check_rows(case):
     np.random.seed(case["seed"])
     entry.fit(est, X, y, w)
     Q = _query(entry, data, X, y, case["extra"])
+    dropped = False
+    if isinstance(Q, np.ndarray) and Q.ndim == 2 and data["kind"] not in ("text", "frame", "target"):
+        # a batch refused as a whole (a far row outside what some inner model accepts) says nothing: the statement is then examined on
+        # the batch without its far rows (training rows and moderate new rows), which an inner model may still refuse in part
+        k_mod = len(case["extra"]["rows"]) + len(case["extra"]["new"])
+        if len(Q) > k_mod:
+            import contextlib as _cl
+            with (np.errstate(all="raise") if case.get("errstate") else _cl.nullcontext()):
+                for meth_ in entry.available(est):
+                    try:
+                        entry.call(est, meth_, Q)
+                    except Exception:  # noqa: BLE001
+                        Q = np.ascontiguousarray(Q[:k_mod])
+                        dropped = True
+                        break
     m = R.nrows(Q)
     perm = [i % m for i in case["perm"]][:m]
     perm = list(dict.fromkeys(perm)) + [i for i in range(m) if i not in perm]       # a permutation of range(m)
     sub = sorted(set(i % m for i in case["sub"]))
     # every row also travels alone when the batch is small (a row sitting exactly on a decision border behaves differently only when alone)
     singles = list(range(m)) if (m <= 32 and case.get("all_singles", True)) else sorted(set(i % m for i in case["singles"]))
-    labels = [name, "errstate:raise" if case.get("errstate") else "errstate:default"]
+    labels = [name, "errstate:raise" if case.get("errstate") else "errstate:default", "far-rows-dropped-after-refusal" if dropped else "whole-batch-kept"]
     nontrivial = False
     # a copy pickled straight after fit, BEFORE any prediction was asked of the model (lazily built helpers do not exist yet)
     try:
@@ -237,7 +258,7 @@ def _cases(draw, name, tier="quick"):
     extra = dict(rows=[draw(st.integers(0, 40)) for _ in range(draw(st.integers(2, 6)))],
                  new=[[draw(cell) for _ in range(4)] for _ in range(draw(st.integers(3, 6)))],
                  docs=[" ".join(draw(st.lists(st.sampled_from(R.WORDS + ["zebra", "x"]), min_size=0, max_size=5))) for _ in range(3)],
-                 extreme=draw(st.sampled_from([None, None, None, 1e17, -1e17, 1e12])))
+                 extreme=draw(st.sampled_from([None, None, None, 1e17, -1e17, 1e12, "x200", "x2000", "x-2000", "x20000"])))
     k = 16
     return dict(cls=name, spec=spec, data=data, extra=extra, seed=draw(st.integers(0, 2**31 - 10)),
                 perm=[draw(st.integers(0, 40)) for _ in range(k)], sub=[draw(st.integers(0, 40)) for _ in range(draw(st.integers(1, 6)))],
